@@ -161,7 +161,12 @@ impl Property for C14 {
                     _ => floor + rng.below(12 * tick),
                 }
             };
-            let act = match rng.below(10) {
+            let act = match rng.below(12) {
+                10 => {
+                    let (a, b) = gen_pair_sels(rng, n);
+                    Act::SetLinkFailRateZero(a, b)
+                }
+                11 => Act::SetFailRateZero,
                 0..=4 => {
                     let (a, b) = gen_pair_sels(rng, n);
                     let v = val(rng, 0);
